@@ -3,7 +3,7 @@
    non-decreasing key order (with the key column of the destination as the witness). *)
 From Coq Require Import ZArith List Lia Bool.
 From EV Require Import Res Arr Join JoinSpec JoinBase JoinIface JoinRows MapStream MapStreamSpec MapIndexedDriver
-  Merge MergeSpec MergeBase MergeOrdered MergeMaps MergeTop MergeRows MergeCopy.
+  JoinDriver JoinMain JoinAll Merge MergeSpec MergeBase MergeOrdered MergeMaps MergeTop MergeRows MergeCopy MergeAll.
 Import ListNotations.
 Open Scope Z_scope.
 
@@ -171,4 +171,246 @@ Proof.
   intros Hhow HL HR. rewrite (dest_keys_eq how lk rk Hhow). apply lsorted_sorted.
   destruct (how =? 0); [|destruct (how =? 1)]; apply lsorted_flat_map;
     try apply block_left_const; try apply block_inner_const; apply sorted_lsorted; assumption.
+Qed.
+
+(* ================================================================ what the pairs of the join look like *)
+Lemma in_left_pairs R : forall L i0 p, In p (left_pairs (map single L) (map single R) i0) ->
+  exists k, 0 <= k < len L /\ fst p = Some (i0 + k) /\
+    (snd p = None \/ exists j, snd p = Some j /\ 0 <= j < len R /\ nthZ R j = nthZ L k).
+Proof.
+  induction L as [|x t IH]; intros i0 p Hp; [destruct Hp|].
+  cbn [map left_pairs] in Hp. pose proof (len_nonneg t) as Ht. apply in_app_or in Hp. destruct Hp as [Hp|Hp].
+  - exists 0. rewrite len_cons, Z.add_0_r, nthZ_cons_0. split; [lia|].
+    unfold single at 1 in Hp. rewrite matches_rows_single in Hp.
+    destruct (matches_from x R 0) as [|m ms] eqn:Em.
+    + destruct Hp as [<-|[]]. cbn [fst snd]. split; [reflexivity|left; reflexivity].
+    + change (In p (map (fun j : Z => (Some i0, Some j)) (m :: ms))) in Hp.
+      rewrite <- Em in Hp. apply in_map_iff in Hp. destruct Hp as (j & <- & Hj). cbn [fst snd].
+      split; [reflexivity|right]. exists j. split; [reflexivity|].
+      apply in_matches_from in Hj. rewrite Z.sub_0_r in Hj. lia.
+  - destruct (IH _ _ Hp) as (k & Hk & Hf & Hs). exists (k + 1). rewrite len_cons, nthZ_cons_succ by lia.
+    split; [lia|]. split; [rewrite Hf; f_equal; lia|exact Hs].
+Qed.
+
+Lemma in_inner_pairs R : forall L i0 p, In p (inner_pairs (map single L) (map single R) i0) ->
+  exists k j, 0 <= k < len L /\ fst p = Some (i0 + k) /\ snd p = Some j /\ 0 <= j < len R /\ nthZ R j = nthZ L k.
+Proof.
+  induction L as [|x t IH]; intros i0 p Hp; [destruct Hp|].
+  cbn [map inner_pairs] in Hp. pose proof (len_nonneg t) as Ht. apply in_app_or in Hp. destruct Hp as [Hp|Hp].
+  - unfold single at 1 in Hp. rewrite matches_rows_single in Hp.
+    apply in_map_iff in Hp. destruct Hp as (j & <- & Hj). exists 0, j. rewrite len_cons, Z.add_0_r, nthZ_cons_0. cbn [fst snd].
+    apply in_matches_from in Hj. rewrite Z.sub_0_r in Hj. splits; try reflexivity; lia.
+  - destruct (IH _ _ Hp) as (k & j & Hk & Hf & Hs & Hj & He). exists (k + 1), j. rewrite len_cons, nthZ_cons_succ by lia.
+    splits; try assumption; try lia. rewrite Hf; f_equal; lia.
+Qed.
+
+(* where both sides of a row are present the two keys are equal; row numbers are in range *)
+Theorem merge_pairs_keys_agree how lk rk i j : how = 0 \/ how = 1 \/ how = 2 ->
+  In (Some i, Some j) (merge_pairs how [lk] [rk]) ->
+  0 <= i < len lk /\ 0 <= j < len rk /\ nthZ lk i = nthZ rk j.
+Proof.
+  intros Hhow Hin. rewrite merge_pairs_single in Hin. unfold join_pairs in Hin.
+  destruct Hhow as [E|[E|E]]; subst how; cbn [Z.eqb Pos.eqb] in Hin.
+  - apply in_left_pairs in Hin. destruct Hin as (k & Hk & Hf & [Hs|(j' & Hs & Hj & He)]); cbn [fst snd] in *; [discriminate|].
+    inversion Hf; inversion Hs; subst. splits; lia.
+  - apply in_map_iff in Hin. destruct Hin as (p & Hp & Hin). apply in_left_pairs in Hin.
+    destruct p as [a b]. unfold swap_pair in Hp. cbn [fst snd] in *. inversion Hp; subst.
+    destruct Hin as (k & Hk & Hf & [Hs|(j' & Hs & Hj & He)]); [discriminate|].
+    inversion Hf; inversion Hs; subst. splits; lia.
+  - apply in_inner_pairs in Hin. destruct Hin as (k & j' & Hk & Hf & Hs & Hj & He). cbn [fst snd] in *.
+    inversion Hf; inversion Hs; subst. splits; lia.
+Qed.
+
+(* the side a row is read on is never `none` *)
+Lemma merge_pairs_left_side how lk rk p : how = 0 \/ how = 2 -> In p (merge_pairs how [lk] [rk]) ->
+  exists i, fst p = Some i /\ 0 <= i < len lk.
+Proof.
+  intros Hhow Hin. rewrite merge_pairs_single in Hin. unfold join_pairs in Hin.
+  destruct Hhow as [E|E]; subst how; cbn [Z.eqb Pos.eqb] in Hin.
+  - apply in_left_pairs in Hin. destruct Hin as (k & Hk & Hf & _). exists (0 + k). split; [exact Hf|lia].
+  - apply in_inner_pairs in Hin. destruct Hin as (k & j & Hk & Hf & _). exists (0 + k). split; [exact Hf|lia].
+Qed.
+
+Lemma merge_pairs_right_side how lk rk p : how = 1 \/ how = 2 -> In p (merge_pairs how [lk] [rk]) ->
+  exists j, snd p = Some j /\ 0 <= j < len rk /\
+            (how = 2 -> exists i, fst p = Some i /\ nthZ lk i = nthZ rk j).
+Proof.
+  intros Hhow Hin. rewrite merge_pairs_single in Hin. unfold join_pairs in Hin.
+  destruct Hhow as [E|E]; subst how; cbn [Z.eqb Pos.eqb] in Hin.
+  - apply in_map_iff in Hin. destruct Hin as (q & <- & Hin). apply in_left_pairs in Hin.
+    destruct Hin as (k & Hk & Hf & _). exists (0 + k). unfold swap_pair. cbn [snd]. splits; [exact Hf|lia|lia|].
+    intros; discriminate.
+  - apply in_inner_pairs in Hin. destruct Hin as (k & j & Hk & Hf & Hs & Hj & He). exists j. splits; try assumption; try lia.
+    intros _. exists (0 + k). split; [exact Hf|]. rewrite Z.add_0_l. lia.
+Qed.
+
+Lemma nthd_map_single e lk i : 0 <= i < len lk -> nthd e (map single lk) i = single (nthZ lk i).
+Proof.
+  intros Hi. unfold nthd, nthZ, nthd. rewrite (nth_indep _ e (single 0)) by (rewrite map_length; unfold len in Hi; lia).
+  apply (map_nth single).
+Qed.
+
+(* the key column, carried along as an ordinary column, comes out as dest_keys: it is the witness of the
+   row order in the destination itself *)
+Theorem gather_left_key_column how lk rk z e : how = 0 \/ how = 2 ->
+  gather_col (CFix z e (map single lk)) (map fst (merge_pairs how [lk] [rk]))
+  = CFix z e (map single (dest_keys how lk rk)).
+Proof.
+  intros Hhow. cbn [gather_col]. f_equal. unfold dest_keys. rewrite !map_map. apply map_ext_in. intros p Hp.
+  destruct (merge_pairs_left_side how lk rk p Hhow Hp) as (i & Hf & Hi).
+  replace (how =? 1) with false by (destruct Hhow; subst; reflexivity). rewrite Hf. apply nthd_map_single. exact Hi.
+Qed.
+
+Theorem gather_right_key_column how lk rk z e : how = 1 \/ how = 2 ->
+  gather_col (CFix z e (map single rk)) (map snd (merge_pairs how [lk] [rk]))
+  = CFix z e (map single (dest_keys how lk rk)).
+Proof.
+  intros Hhow. cbn [gather_col]. f_equal. unfold dest_keys. rewrite !map_map. apply map_ext_in. intros p Hp.
+  destruct (merge_pairs_right_side how lk rk p Hhow Hp) as (j & Hs & Hj & Hboth).
+  destruct Hhow as [E|E]; subst how; cbn [Z.eqb Pos.eqb].
+  - rewrite Hs. apply nthd_map_single. exact Hj.
+  - destruct (Hboth eq_refl) as (i & Hf & He). rewrite Hs, Hf, He. apply nthd_map_single. exact Hj.
+Qed.
+
+(* ================================================================ end to end, no hypothesis about C03 *)
+Lemma kind_pre_b_unique k e A B : kind_pre k A B -> v_writes_l (mkvar k e) = false -> ssorted B.
+Proof. destruct k, e; cbn; intros (H1 & H2) Hw; try discriminate; exact H2. Qed.
+
+Lemma hints_b_unique how lu ru lk rk : hints_truthful lu ru lk rk ->
+  v_writes_l (sel_variant how lu ru) = false -> ssorted (sel_b how lk rk).
+Proof.
+  intros Hpre Hw. apply (sel_kind_pre how) in Hpre. rewrite (sel_variant_eta how lu ru) in Hw.
+  exact (kind_pre_b_unique _ _ _ _ Hpre Hw).
+Qed.
+
+Section EndToEnd.
+Variables (how:Z) (lu ru:bool) (lk rk:list Z) (lcols rcols:frame) (lsuf rsuf:list Z) (cs mcs vf ccs:Z).
+Let inv := merge_invalid lu ru (len lk) (len rk).
+Hypothesis Hhow : how = 0 \/ how = 1 \/ how = 2.
+Hypothesis Hcs : 1 <= cs.
+Hypothesis Hmcs : 1 <= mcs.
+Hypothesis Hvf : 0 <= vf.
+Hypothesis Hccs : 1 <= ccs.
+Hypothesis Hpre : hints_truthful lu ru lk rk.
+Hypothesis Hnbd : nbd (sel_a how lk rk) (sel_b how lk rk).
+Hypothesis Hck : chunks_ok (v_kind (sel_variant how lu ru)) cs (sel_a how lk rk) (sel_b how lk rk).
+Hypothesis Hlframe : frame_ok (len lk) lcols (mcs * vf).
+Hypothesis Hrframe : frame_ok (len rk) rcols (mcs * vf).
+Hypothesis Hnames : NoDup (frame_names (ordered_dest how lu ru lk rk lcols rcols lsuf rsuf)).
+Hypothesis HlenL : len lk <= INVALID_INDEX_64.
+Hypothesis HlenR : len rk <= INVALID_INDEX_64.
+
+Lemma dest_is_spec :
+  ordered_dest how lu ru lk rk lcols rcols lsuf rsuf
+  = map_fields (fst (jmaps how lu ru lk rk inv)) (snd (jmaps how lu ru lk rk inv)) ++
+    merge_spec how [lk] [rk] lcols rcols lsuf rsuf.
+Proof.
+  destruct Hpre as (HsL & HsR & _).
+  apply ordered_dest_is_merge_spec_all; try assumption.
+  - apply hints_b_unique. exact Hpre.
+  - apply merge_invalid_ge. exact HlenL.
+  - apply merge_invalid_ge_r. exact HlenR.
+  - eapply frame_ok_wf. exact Hlframe.
+  - eapply frame_ok_wf. exact Hrframe.
+Qed.
+
+(* _ordered_merge = the join maps + merge_spec: the relational join, for every variant *)
+Theorem ordered_merge_is_relational_join :
+  ordered_merge MFixed how lu ru lk rk lcols rcols lsuf rsuf (len lk) (len rk) cs mcs vf ccs
+  = Ok (map_fields (fst (jmaps how lu ru lk rk inv)) (snd (jmaps how lu ru lk rk inv)) ++
+        merge_spec how [lk] [rk] lcols rcols lsuf rsuf).
+Proof. rewrite <- dest_is_spec. apply ordered_merge_correct_all; assumption. Qed.
+
+(* every field of the destination has one row per row of the relational join *)
+Theorem ordered_merge_same_length d :
+  ordered_merge MFixed how lu ru lk rk lcols rcols lsuf rsuf (len lk) (len rk) cs mcs vf ccs = Ok d ->
+  forall f, In f d -> col_len (snd f) = len (merge_pairs how [lk] [rk]).
+Proof.
+  rewrite ordered_merge_correct_all by assumption. intros Hd. inversion Hd; subst d. clear Hd.
+  destruct Hpre as (HsL & HsR & _).
+  apply ordered_dest_same_length; try assumption.
+  - apply hints_b_unique. exact Hpre.
+  - apply merge_invalid_ge. exact HlenL.
+  - apply merge_invalid_ge_r. exact HlenR.
+  - eapply frame_ok_wf. exact Hlframe.
+  - eapply frame_ok_wf. exact Hrframe.
+Qed.
+
+(* a key column carried along on the side that is never `none` comes out sorted *)
+Theorem ordered_merge_left_key_sorted d n z e : how = 0 \/ how = 2 ->
+  ordered_merge MFixed how lu ru lk rk lcols rcols lsuf rsuf (len lk) (len rk) cs mcs vf ccs = Ok d ->
+  In (n, CFix z e (map single lk)) lcols ->
+  In (spec_name n (frame_names rcols) lsuf, CFix z e (map single (dest_keys how lk rk))) d /\
+  sorted (dest_keys how lk rk).
+Proof.
+  intros Hh. rewrite ordered_merge_is_relational_join. intros Hd Hin. inversion Hd; subst d. clear Hd.
+  destruct Hpre as (HsL & HsR & _). split; [|apply dest_keys_sorted; assumption].
+  apply in_or_app. right. unfold merge_spec. cbv zeta. apply in_or_app. left.
+  apply in_map_iff. exists (n, CFix z e (map single lk)). split; [|exact Hin]. cbn [fst snd]. f_equal.
+  apply (gather_left_key_column how lk rk z e Hh).
+Qed.
+
+Theorem ordered_merge_right_key_sorted d n z e : how = 1 \/ how = 2 ->
+  ordered_merge MFixed how lu ru lk rk lcols rcols lsuf rsuf (len lk) (len rk) cs mcs vf ccs = Ok d ->
+  In (n, CFix z e (map single rk)) rcols ->
+  In (spec_name n (frame_names lcols) rsuf, CFix z e (map single (dest_keys how lk rk))) d /\
+  sorted (dest_keys how lk rk).
+Proof.
+  intros Hh. rewrite ordered_merge_is_relational_join. intros Hd Hin. inversion Hd; subst d. clear Hd.
+  destruct Hpre as (HsL & HsR & _). split; [|apply dest_keys_sorted; assumption].
+  apply in_or_app. right. unfold merge_spec. cbv zeta. apply in_or_app. right.
+  apply in_map_iff. exists (n, CFix z e (map single rk)). split; [|exact Hin]. cbn [fst snd]. f_equal.
+  apply (gather_right_key_column how lk rk z e Hh).
+Qed.
+End EndToEnd.
+
+(* ================================================================ the hypotheses are satisfiable (non-BU variants) *)
+(* how='left' with a truthful right-unique hint (generator to_left_right_unique: left side trimmed, left columns
+   copied), join chunk 3 on 4 keys: two kernel calls, one refill; an unmatched row at the end *)
+Example all_hyps_example_ru :
+  hints_truthful false true [1;2;2;5] [0;2;3;4] /\
+  nbd (sel_a 0 [1;2;2;5] [0;2;3;4]) (sel_b 0 [1;2;2;5] [0;2;3;4]) /\
+  chunks_ok (v_kind (sel_variant 0 false true)) 3 (sel_a 0 [1;2;2;5] [0;2;3;4]) (sel_b 0 [1;2;2;5] [0;2;3;4]) /\
+  v_writes_l (sel_variant 0 false true) = false /\
+  ordered_merge MFixed 0 false true [1;2;2;5] [0;2;3;4]
+     [([107], CFix [0] [0] [[1];[2];[2];[5]]); ([120;97], CIdx [0;1;1;3;4] [97;99;99;100])]
+     [([105;112], CFix [0] [0] [[10];[20];[30];[40]])] [95;108] [95;114] 4 4 3 2 2 2
+  = Ok [ (N_right_map, map_column [INVALID_INDEX_32; 1; 1; INVALID_INDEX_32]);
+         ([107], CFix [0] [0] [[1];[2];[2];[5]]); ([120;97], CIdx [0;1;1;3;4] [97;99;99;100]);
+         ([105;112], CFix [0] [0] [[0];[20];[20];[0]]) ] /\
+  dest_keys 0 [1;2;2;5] [0;2;3;4] = [1;2;2;5].
+Proof.
+  assert (HR : ssorted [0;2;3;4]) by (apply ssortedb_ssorted; reflexivity).
+  assert (HL : sorted [1;2;2;5]) by (apply sortedb_sorted; reflexivity).
+  split; [|split; [|split; [|split; [|split]]]].
+  - unfold hints_truthful. split; [exact HL|]. split; [apply ssorted_sorted; exact HR|]. split; [discriminate|intros _; exact HR].
+  - apply nbd_right_unique. exact HR.
+  - split; [|discriminate]. intros _ a Ha Hlt. assert (a = 0) as -> by (cbn in Hlt; lia).
+    exists 1. split; [lia|cbv; discriminate].
+  - reflexivity.
+  - vm_compute. reflexivity.
+  - vm_compute. reflexivity.
+Qed.
+
+(* how='inner' without unique hints (general generator, both sides trimmed), a run on the left, none repeated on both *)
+Example all_hyps_example_gen :
+  hints_truthful false false [1;1;2;3] [1;3;4] /\
+  nbd (sel_a 2 [1;1;2;3] [1;3;4]) (sel_b 2 [1;1;2;3] [1;3;4]) /\
+  chunks_ok (v_kind (sel_variant 2 false false)) 3 (sel_a 2 [1;1;2;3] [1;3;4]) (sel_b 2 [1;1;2;3] [1;3;4]) /\
+  ordered_merge MFixed 2 false false [1;1;2;3] [1;3;4]
+     [([107], CFix [0] [0] [[1];[1];[2];[3]])] [([107], CFix [0] [0] [[1];[3];[4]])] [95;108] [95;114] 4 3 3 2 2 2
+  = Ok [ (N_left_map, map_column [0;1;3]); (N_right_map, map_column [0;0;1]);
+         ([107;95;108], CFix [0] [0] [[1];[1];[3]]); ([107;95;114], CFix [0] [0] [[1];[1];[3]]) ] /\
+  dest_keys 2 [1;1;2;3] [1;3;4] = [1;1;3].
+Proof.
+  assert (HR : ssorted [1;3;4]) by (apply ssortedb_ssorted; reflexivity).
+  assert (HL : sorted [1;1;2;3]) by (apply sortedb_sorted; reflexivity).
+  split; [|split; [|split; [|split]]].
+  - unfold hints_truthful. split; [exact HL|]. split; [apply ssorted_sorted; exact HR|]. split; discriminate.
+  - apply nbd_right_unique. exact HR.
+  - split; intros _ a Ha Hlt.
+    + assert (a = 0) as -> by (cbn in Hlt; lia). exists 2. split; [lia|cbv; discriminate].
+    + cbn in Hlt. lia.
+  - vm_compute. reflexivity.
+  - vm_compute. reflexivity.
 Qed.
